@@ -152,11 +152,19 @@ func checkViews(t failer, upper, lower uint64) {
 		t.Fatalf("NewUint128(big %s) = %s, %v (%s)", dec, show(got), err, ctx)
 	}
 	for _, in := range [][]byte{le, full} {
-		if got, err := scale.NewUint128(append([]byte{}, in...)); err != nil || !eq(got, upper, lower) {
+		arg := append([]byte{}, in...)
+		if got, err := scale.NewUint128(arg); err != nil || !eq(got, upper, lower) {
 			t.Fatalf("NewUint128(LE %x) = %s, %v (%s)", in, show(got), err, ctx)
 		}
-		if got, err := scale.NewUint128(append([]byte{}, in...), binary.LittleEndian); err != nil || !eq(got, upper, lower) {
+		if !bytes.Equal(arg, in) {
+			t.Fatalf("NewUint128(LE %x) changed the bytes it was given to %x: they no longer denote the number (%s)", in, arg, ctx)
+		}
+		arg = append([]byte{}, in...)
+		if got, err := scale.NewUint128(arg, binary.LittleEndian); err != nil || !eq(got, upper, lower) {
 			t.Fatalf("NewUint128(LE %x, LittleEndian) = %s, %v (%s)", in, show(got), err, ctx)
+		}
+		if !bytes.Equal(arg, in) {
+			t.Fatalf("NewUint128(LE %x, LittleEndian) changed the bytes it was given to %x (%s)", in, arg, ctx)
 		}
 	}
 	// the byte form may be a window into a longer buffer (a field of a decoded
@@ -178,8 +186,13 @@ func checkViews(t failer, upper, lower uint64) {
 	be16 := make([]byte, 16)
 	copy(be16[16-len(be):], be)
 	for _, in := range [][]byte{be, be16} {
-		if got, err := scale.NewUint128(append([]byte{}, in...), binary.BigEndian); err != nil || !eq(got, upper, lower) {
+		arg := append([]byte{}, in...)
+		if got, err := scale.NewUint128(arg, binary.BigEndian); err != nil || !eq(got, upper, lower) {
 			t.Fatalf("NewUint128(BE %x, BigEndian) = %s, %v, want Upper %#x Lower %#x (%s)", in, show(got), err, upper, lower, ctx)
+		}
+		// the byte form handed in is still a view of the same number afterwards
+		if !bytes.Equal(arg, in) {
+			t.Fatalf("NewUint128(BE %x, BigEndian) changed the bytes it was given to %x: they no longer denote the number (%s)", in, arg, ctx)
 		}
 	}
 
